@@ -29,6 +29,7 @@ func init() {
 			"(replica-stores-verbatim) shared with C04: a backup never drops or reorders an entry shipped by the owner.",
 		Run: func(r *core.Run) {
 			c07RequestStateNotShared(r)
+			c07TimestampAfterKeyLock(r)
 			pipelineIndex(r)
 			c07LockSections(r)
 			c07ClientTargetsOwner(r)
